@@ -5,7 +5,7 @@ const ghostPreludeMarker = "// ---- ghost prelude ----"
 // Names the engine intercepts (their Go bodies exist for replay only).
 var ghostBuiltinNames = []string{
 	"seq", "seqOf", "bytesOf", "cat", "cat3", "cat4", "b1", "u16be", "sub", "slen", "sat", "mkseq", "seqEq", "seq0",
-	"forall", "exists", "fresh", "arrayOf", "sameArray", "ite",
+	"maxAlloc", "msnap", "mapSnap", "snapHas", "snapGet", "mapHas", "forall", "exists", "fresh", "arrayOf", "sameArray", "ite",
 	"evCount", "evIndex", "evArg", "evBytes", "evRet", "evTotal",
 	"holds", "holdsR", "closed", "isNilFunc", "closureIs", "closureVar", "sameFunc", "dynType", "typeIs",
 	"strBytesEq", "runeOK", "validUTF8", "utf8norm", "utf8normOf", "ovfFree", "unchanged", "fnCode", "readyAt",
@@ -109,6 +109,26 @@ func evArg[T any](name string, k, arg int) T { var z T; return z }
 func evRet[T any](name string, k, res int) T { var z T; return z }
 
 func ghostTrue() bool { return true }
+
+// validUTF8(s): s is well-formed UTF-8.
+func validUTF8(s string) bool { return string([]rune(s)) == s }
+
+// maxAlloc(): largest make() size requested so far (verifier only).
+func maxAlloc() int { return 0 }
+
+// msnap is a ghost snapshot of a map's content.
+type msnap[K comparable, V any] struct{ m map[K]V }
+
+func mapSnap[K comparable, V any](m map[K]V) msnap[K, V] {
+	c := map[K]V{}
+	for k, v := range m {
+		c[k] = v
+	}
+	return msnap[K, V]{c}
+}
+func snapHas[K comparable, V any](s msnap[K, V], k K) bool { _, ok := s.m[k]; return ok }
+func snapGet[K comparable, V any](s msnap[K, V], k K) V    { return s.m[k] }
+func mapHas[K comparable, V any](m map[K]V, k K) bool      { _, ok := m[k]; return ok }
 
 // hasByte(s, c): some byte of s equals c.
 func hasByte(s string, c byte) bool {
